@@ -114,3 +114,71 @@ Lemma manager_resumes s g : resumes s g = true <-> m_sm s = true /\ m_held s = t
 Proof.
   unfold resumes. rewrite !andb_true_iff. tauto.
 Qed.
+
+(* ---- the connection is cut while the answer to <resume/> is awaited ---- *)
+Lemma str_eqb_refl_local (a : str) : str_eqb a a = true.
+Proof. induction a as [|x a IH]; [reflexivity|]. cbn. rewrite N.eqb_refl. exact IH. Qed.
+
+(* the request has gone out, no bind request follows, the attempt fails as a transient one and the
+   state is the one held before: the manager's [cut_awaiting_resume_answer] *)
+Lemma cut_awaiting_answer_keeps_state cfg c p f s sn :
+  f_sm f = true -> has_id p = true -> conn_lost s = true ->
+  let x := step_resume cfg c p f s sn in
+  reqs (outs x) = [RResume (p_sm_id p) (p_inbound p)] /\ pst x = p /\
+  resume_step_attempt p x = cut_awaiting_resume_answer /\
+  is_noise (EAttempt (resume_step_attempt p x)) = true.
+Proof.
+  intros Hf Hi Hc. unfold has_id in Hi. cbn zeta. unfold step_resume. rewrite Hf, Hi. cbn [andb].
+  destruct s as [|i s']; [|destruct i; try discriminate Hc].
+  all: unfold resume_step_attempt, state_lost, outs, pst, reqs; cbn;
+    rewrite str_eqb_refl_local; repeat split.
+Qed.
+
+(* ... and so the attempt that follows presents the same state, and the session is the resumed
+   one when the server still knows it *)
+Lemma resumed_after_cut_answer cfg c p f s sn rest sn' :
+  f_sm f = true -> has_id p = true -> conn_lost s = true ->
+  let x := step_resume cfg c p f s sn in
+  let y := step_resume cfg c (pst x) f (SResumed (p_sm_id p) :: rest) sn' in
+  res y = Ok /\ resumed_of (outs y) = true /\ pst y = p /\
+  reqs (outs y) = [RResume (p_sm_id p) (p_inbound p)].
+Proof.
+  intros Hf Hi Hc. cbn zeta.
+  destruct (cut_awaiting_answer_keeps_state cfg c p f s sn Hf Hi Hc) as (_ & -> & _).
+  rewrite (resumed_continues cfg c p f rest sn' Hf Hi). repeat split.
+Qed.
+
+(* the manager: a loss, any noise with such cuts in it, a successful attempt: one session, the
+   resumed one when stream management is on, a state was held and the server grants it *)
+Lemma cut_awaiting_answer_transparent sm held a b :
+  held_after sm held (a ++ EAttempt cut_awaiting_resume_answer :: b) = held_after sm held (a ++ b).
+Proof.
+  rewrite !held_after_app. reflexivity.
+Qed.
+
+Lemma resumed_after_cut_round sm es0 t g :
+  let s := m_run repaired (m_init sm) es0 in
+  m_phase s = MUp -> is_loss t = true ->
+  let s' := m_run repaired s [ETerm t; EAttempt cut_awaiting_resume_answer; EAttempt (AOk g)] in
+  m_phase s' = MUp /\ m_sessions s' = S (m_sessions s) /\ m_post s' = S (m_post s) /\
+  m_resumed s' = (if m_sm s && m_held s && g then S (m_resumed s) else m_resumed s).
+Proof.
+  intros s P Ht.
+  destruct (one_session_per_loss_reach sm es0 t [EAttempt cut_awaiting_resume_answer] g P Ht eq_refl)
+    as (A & _ & _ & B & C & _ & D).
+  repeat split; assumption.
+Qed.
+
+(* the contrast: after a refusal the state is gone, whatever the connection does next *)
+Lemma refused_then_cut_loses_state sm es0 t g :
+  let s := m_run repaired (m_init sm) es0 in
+  m_phase s = MUp -> is_loss t = true ->
+  let s' := m_run repaired s [ETerm t; EAttempt cut_after_resume_refused; EAttempt (AOk g)] in
+  m_sessions s' = S (m_sessions s) /\ m_resumed s' = m_resumed s.
+Proof.
+  intros s P Ht.
+  destruct (one_session_per_loss_reach sm es0 t [EAttempt cut_after_resume_refused] g P Ht eq_refl)
+    as (_ & _ & _ & B & _ & _ & D).
+  split; [exact B|]. etransitivity; [exact D|].
+  unfold cut_after_resume_refused. cbn [held_after]. rewrite andb_false_r. reflexivity.
+Qed.
